@@ -12,7 +12,6 @@ CONSTANTS
   MaxDup = 0
   MaxRestarts = 1
   Intermediate = FALSE
-INVARIANT HistoryOK
 INVARIANT EnvConsistent
 INVARIANT IdleIsSynced
 INVARIANT EmitScripts
